@@ -22,6 +22,9 @@ CLAIMED = {
  "C05": dict(tech="CFG path enumeration of one group iteration / one competing-head iteration of _resolve_action_conflicts (emission count, fate count); def-use of the grouping key; shape of sort order and tie prefix; reaching definition of the filtered head list",
              text="Decides on every path: one action emission per interaction-loop group, none for co-winners, exactly one fate (co-win under is_equal / caught / abort) per competing head, grouping by the head's own loop_id, descending score order with the winner drawn from the exact-tie prefix, and the active-flow filter before resolution. The order over score vectors for all values is not decided.",
              ref="DESIGN.md C05"),
+ "C06": dict(tech="typestate rule on every action Stop emission site (guard set, shared-count decrement, STOPPING before emit, via CFG must-pass-through); effect-set sibling cross-check of _finish_flow/_abort_flow; who-may-write table for `activated`; scope pairing on emission traces (emit2)",
+             text="Decides the Stop-event discipline at every emission site (exactly-one / never for non-running actions / shared actions), that finishing and aborting a flow perform the same set of lifetime effects in the semantically required order, the writers of the activation count and the immediate-finish guard. The lifetime invariant over all hierarchies and histories is not decided.",
+             ref="DESIGN.md C06"),
 }
 NA = {
  "C18": "equality of string results over all chunkings of a stateful transducer; no structural necessary condition that is not a brittle proxy (DESIGN.md C18)",
